@@ -367,7 +367,7 @@ func jsonOf(d *D) any {
 }
 
 func c10(c *Ctx) {
-	n := c.N(4000, 60000)
+	n := c.N(2000, 40000)
 	rends := renderingsC10(c.Rng)
 	c.Rule = fmt.Sprintf("random (query over the function set F10, rectangular document) pairs x %d renderings of the document (%s) + the document as JSON and YAML text re-parsed by the query; results compared across renderings after forgetting the carrier, and with the model. Non-trivial = the baseline evaluation succeeds; distinct by (query, data).", len(rends), func() string {
 		ns := []string{}
